@@ -248,6 +248,8 @@ def run_shard(ctx):
                 except (PromptError, CheckoutError, LinkError) as e:
                     out2 = type(e).__name__
                 aft2 = walk_files(ws)
+                if out2 == "returned":
+                    outcome = "returned-on-second-attempt"  # a successful checkout may record the workspace as its own
                 for k, v in mid0.items():
                     if v is not None and aft2.get(k) != v and H("md5", v) not in intact:
                         res.violation(f"uncached-user-file-destroyed-by-second-attempt/after-{outcome}",
@@ -258,7 +260,7 @@ def run_shard(ctx):
             # "modified since recorded" in the sense the clean-up can see: the set of files or one of their mtimes changed
             # (judged on the view the clean-up will actually see: a stray file removed for the second attempt no longer counts)
             edited = start != "empty" and os.path.isdir(ws) and recorded_view != {} and pre_view != recorded_view and mtimes_of(ws) != recorded_view
-            if state is not None and not lost and outcome != "returned" and edited and not dangling and rng.random() < 0.8:
+            if state is not None and not lost and not outcome.startswith("returned") and edited and not dangling and rng.random() < 0.8:
                 # the checkout was refused / failed: it must not have recorded the user's edited workspace as its own link
                 res.count("cleanups_after_checkout")
                 mid = walk_files(ws)
